@@ -264,6 +264,8 @@ class Credits(Mode):
 
         self._update_credit_strings()
 
+        # prevent duplicate handlers when credit play is enabled twice in a row
+        self._disable_credit_handlers()
         self._enable_credit_handlers()
 
         # prevent duplicate handlers
